@@ -425,6 +425,19 @@ def run(res, tier):
     sibling_builders(facts, res)
     res.rule("C11.4 bit provenance (abstract interpretation, Dim = 1..4): index bit k*Dim+Dim-1-d is a copy of bit k of coordinate d and nothing else, the decoder is its inverse, parent/child-code/child are the matching bit moves (Hilbert: around its two table conversions); hence parent coordinates = child coordinates >> 1 and the child code is the octant, for every input. Termination of the data-dependent loops and the Hilbert tables are not decided")
     bit_laws(facts, res)
+    res.rule("C11.5 lists and levels fit together: with the window clamps, wrap and shift, too-close threshold, empty-below level, self exclusion and upper-half filter read from the per-cell builders, every other leaf cell (non periodic) / every unwrapped leaf cell of the images -1..1 (periodic, heights from 1) reaches a target through the near list or the interaction list of exactly one level (rules/decomp.py; Dim 1 and 2)")
+    import decomp
+    lv = {}
+    for g_ in facts.globals:
+        if g_["name"] in ("TbfDefaultLastLevel", "TbfDefaultLastLevelPeriodic") and g_.get("c"):
+            lit = [z for z in walk(g_["c"][0]) if z.get("k") == "IntegerLiteral"]
+            if len(lit) == 1:
+                lv[g_["name"]] = int(lit[0]["val"])
+    if len(lv) != 2:
+        raise AnalysisBroken("default upper working levels not found as integer constants")
+    n5 = decomp.check(facts, res, "C11.5.lists-and-levels", ORDERINGS[0], lv["TbfDefaultLastLevel"])
+    n5 += decomp.check_periodic(facts, res, "C11.5.lists-and-levels", ORDERINGS[0], lv["TbfDefaultLastLevelPeriodic"])
+    res.floor("C11.5.lists-and-levels", n5, 2000, "cell pairs of the model")
     n, hits = literal_dimension(facts, res)
     res.instance("C11.2.literal-dimension", "scan", "src/", "%d shift/mask expressions examined outside ordering classes and kernels" % n)
     # positive control (expected count on a healthy tree is zero)
